@@ -29,6 +29,9 @@ use std::time::Duration;
 // ---------------------------------------------------------------- counting allocator (C15)
 struct Counting;
 static TOTAL: AtomicUsize = AtomicUsize::new(0);
+/// bytes a reallocation may have had to copy (the old size of every block that was grown or shrunk through realloc):
+/// linear in what is allocated when vectors grow geometrically, quadratic when they grow by one element at a time
+static MOVED: AtomicUsize = AtomicUsize::new(0);
 static CUR: AtomicUsize = AtomicUsize::new(0);
 static PEAK: AtomicUsize = AtomicUsize::new(0);
 static NALLOC: AtomicUsize = AtomicUsize::new(0);
@@ -51,6 +54,7 @@ unsafe impl GlobalAlloc for Counting {
     unsafe fn realloc(&self, p: *mut u8, l: Layout, new: usize) -> *mut u8 {
         let q = System.realloc(p, l, new);
         if !q.is_null() {
+            MOVED.fetch_add(l.size().min(new), Ordering::Relaxed);
             if new > l.size() {
                 let d = new - l.size();
                 TOTAL.fetch_add(d, Ordering::Relaxed);
@@ -71,6 +75,7 @@ static A: Counting = Counting;
 /// returns the number of bytes live at the start of the measured region
 fn reset_counters() -> usize {
     TOTAL.store(0, Ordering::Relaxed);
+    MOVED.store(0, Ordering::Relaxed);
     NALLOC.store(0, Ordering::Relaxed);
     let base = CUR.load(Ordering::Relaxed);
     PEAK.store(base, Ordering::Relaxed);
@@ -100,6 +105,7 @@ fn fnv(s: &[u8]) -> String {
 static LAST_PANIC: Mutex<String> = Mutex::new(String::new());
 
 // ---------------------------------------------------------------- worker
+#[derive(Clone, Copy)]
 struct Opts {
     post: Post,
     json: bool,
@@ -239,12 +245,17 @@ fn struct_op(op: &Value, post: Post) -> Value {
            "back": back.iter().map(|p| project::item(p, post)).collect::<Vec<_>>()})
 }
 
-fn worker_loop(o: Opts) {
+/// Runs operations until the input ends (returns None) or until a `reset` that asks for a fresh thread
+/// (`"fresh": true`) arrives: that line is returned unprocessed and the caller continues with it on a new thread,
+/// so that per-thread state of the library (thread_local!) is sometimes inherited by a session and sometimes not.
+fn worker_loop(o: Opts, first: Option<String>) -> Option<String> {
     let stdin = std::io::stdin();
     let stdout = std::io::stdout();
     let mut out = BufWriter::new(stdout.lock());
     let mut ps: BTreeMap<String, NetflowParser> = BTreeMap::new();
-    for line in stdin.lock().lines() {
+    let mut at_start = first.is_some();
+    let lines = first.into_iter().map(Ok).chain(stdin.lock().lines());
+    for line in lines {
         let line = match line {
             Ok(l) => l,
             Err(_) => break,
@@ -252,6 +263,15 @@ fn worker_loop(o: Opts) {
         if line.trim().is_empty() {
             continue;
         }
+        if !at_start && line.contains("\"reset\"") && line.contains("\"fresh\"") {
+            if let Ok(v) = serde_json::from_str::<Value>(&line) {
+                if v.get("op").and_then(|k| k.as_str()) == Some("reset") && v.get("fresh").and_then(|k| k.as_bool()) == Some(true) {
+                    out.flush().ok();
+                    return Some(line);
+                }
+            }
+        }
+        at_start = false;
         let op: Value = match serde_json::from_str(&line) {
             Ok(v) => v,
             Err(e) => {
@@ -317,12 +337,14 @@ fn worker_loop(o: Opts) {
                     let peak = PEAK.load(Ordering::Relaxed).saturating_sub(base);
                     let held = CUR.load(Ordering::Relaxed).saturating_sub(base);
                     let nalloc = NALLOC.load(Ordering::Relaxed);
+                    let moved = MOVED.load(Ordering::Relaxed);
                     match r {
                         Ok(res) => {
                             // first line: what the library did (written before the result is projected, so
                             // that a harness that runs out of memory while projecting is not blamed on it)
                             let alloc = json!({"total_kib": ((total + 1023) / 1024) as u64, "peak_kib": ((peak + 1023) / 1024) as u64,
-                                               "held_kib": ((held + 1023) / 1024) as u64, "n": nalloc as u64});
+                                               "held_kib": ((held + 1023) / 1024) as u64, "n": nalloc as u64,
+                                               "moved_kib": ((moved + 1023) / 1024) as u64});
                             writeln!(out, "{}", json!({"e": "parsed", "p": p, "alloc": alloc, "nout": res.len() as u64, "buflen": buf.len() as u64})).ok();
                             out.flush().ok();
                             if held > o.big_kib * 1024 {
@@ -378,6 +400,7 @@ fn worker_loop(o: Opts) {
         writeln!(out, "{}", ev).ok();
         out.flush().ok();
     }
+    None
 }
 
 fn worker_main(args: &[String]) {
@@ -435,11 +458,16 @@ fn worker_main(args: &[String]) {
         };
         *LAST_PANIC.lock().unwrap() = format!("{} @ {}", msg, loc);
     }));
-    let h = std::thread::Builder::new()
-        .stack_size(stack_kib * 1024)
-        .spawn(move || worker_loop(Opts { post, json, big_kib }))
-        .expect("spawn");
-    h.join().ok();
+    let o = Opts { post, json, big_kib };
+    let mut first: Option<String> = None;
+    loop {
+        let f = first.take();
+        let h = std::thread::Builder::new().stack_size(stack_kib * 1024).spawn(move || worker_loop(o, f)).expect("spawn");
+        match h.join() {
+            Ok(Some(line)) => first = Some(line),
+            _ => break,
+        }
+    }
 }
 
 // ---------------------------------------------------------------- parent
